@@ -203,8 +203,8 @@ def run_prop(ctx, prop):
     fen = G.run_model(driver, "cluster_fenced", sample)
     fen_ok = G.run_model(driver, "accept_c23", [G.cfg_prefix(c) + "|" + t for c, t in zip(sample, fen)])
     for c, v in zip(sample, seq_ok):
-        if v != "0" and c.startswith("nodes=1;"):
-            broken.append(dict(kind="proof", what="extracted model contradicts c22_single_node_sequential_partial", case=c))
+        if v != "0":
+            broken.append(dict(kind="proof", what="extracted model contradicts c22_sequential_any_nodes_partial", case=c))
     for c, v in zip(sample, fen_ok):
         if v != "0":
             broken.append(dict(kind="proof", what="extracted model contradicts c23_atomic_fence_partial", case=c))
